@@ -211,8 +211,9 @@ def check(ctx, env, c):
         else:
             f = lib.dll.embedded_pairing_wkdibe_random_zpstar
         f.restype = None
-        lib.O.fill(0xCD, 32)
+        lib.O.arm(32)
         f(lib.O.ptr, lib.rand_fn)
+        lib.O.check_guard(op, 32)
         got = conv.ib(lib.O.read(32))
         rej = lib.rand_requested() > 32
         ctx.count(c, rej, "%s:%s%s" % (op, sk, ":rejected" if rej else ""))
@@ -220,8 +221,9 @@ def check(ctx, env, c):
         return
     if op in ("fq_random", "fq2_random"):
         deg = 1 if op == "fq_random" else 2
-        lib.O.fill(0xCD, 48 * deg)
+        lib.O.arm(48 * deg)
         lib.fn("vf_tower_random", None)(deg, lib.O.ptr)
+        lib.O.check_guard(op, 48 * deg)
         ws = conv.raws(lib.O.read(48 * deg))
         rej = lib.rand_requested() > 48 * deg
         ctx.count(c, rej, "%s:%s%s" % (op, sk, ":rejected" if rej else ""))
